@@ -8,6 +8,8 @@
 (*   Killed n k variant ov   start n was killed after its k-th mutating     *)
 (*                           file-system call (variant: torn-write shape)   *)
 (*   Failed err              a start failed                                 *)
+(*   Refused arg err         a start was given an invalid IAT override and  *)
+(*                           refused it (kills during it are Killed, ov "") *)
 (*   Parsed form ok          a client parsed the advertised args (cert form *)
 (*                           or legacy node-id/public-key form) and got     *)
 (*                           exactly the bridge's node ID and public key    *)
@@ -41,11 +43,13 @@ TKilled == /\ Is("Killed") /\ l' = l + 1
            /\ UNCHANGED <<persisted, adv>>
 \* CrashNeverLoses: once an identity was persisted no start may fail
 TFailed == /\ Is("Failed") /\ l' = l + 1 /\ persisted = "none" /\ UNCHANGED <<persisted, iat, adv>>
+\* a start given an argument it must refuse changes nothing: what was promised before still holds afterwards
+TRefused == /\ Is("Refused") /\ l' = l + 1 /\ UNCHANGED <<persisted, iat, adv>>
 TParsed == /\ Is("Parsed") /\ l' = l + 1 /\ Trace[l].ok /\ UNCHANGED <<persisted, iat, adv>>
 TTicketKilled == Is("TicketKilled") /\ l' = l + 1 /\ UNCHANGED <<persisted, iat, adv>>
 \* tickets are at worst forgotten, never block start-up
 TTicketFactory == /\ Is("TicketFactory") /\ l' = l + 1 /\ Trace[l].ok /\ UNCHANGED <<persisted, iat, adv>>
-TNext == TReset \/ TCompleted \/ TKilled \/ TFailed \/ TParsed \/ TTicketKilled \/ TTicketFactory
+TNext == TRefused \/ TReset \/ TCompleted \/ TKilled \/ TFailed \/ TParsed \/ TTicketKilled \/ TTicketFactory
 TraceSpec == TInit /\ [][TNext]_tvars
 HW == TLCSet(1, IF l - 1 > TLCGet(1) THEN l - 1 ELSE TLCGet(1))
 TraceAccepted == IF TLCGet(1) = Len(Trace) THEN TRUE ELSE PrintT(<<"REJECTED_AFTER", TLCGet(1)>>) /\ FALSE
